@@ -9,7 +9,7 @@ use simcore::trace::{Fault, Reader, Record, SerdeOp, Shape, Trace, Writer, READE
 
 pub const MAX_RECORDS: usize = 8;
 pub const MAX_STREAM: usize = 160;
-pub const VALUE_CLASSES: usize = 11;
+pub const VALUE_CLASSES: usize = 12;
 
 pub struct World {
     pub table: Vec<Ops>,
@@ -74,6 +74,22 @@ pub fn value_of_class(rng: &mut Rng, class: u32, w: u32) -> u128 {
             // every byte one of the usual suspects
             let pal = [0x00u8, 0x01, 0x7f, 0x80, 0xfe, 0xff];
             (0..wb).fold(0u128, |a, i| a | ((pal[rng.below(6) as usize] as u128) << (8 * i)))
+        }
+        11 => {
+            // periodic: a random unit of 8/16/32/64 bits repeated (equal sub-words), sometimes with
+            // one unit disturbed
+            let per = [8u32, 16, 32, 64][rng.below(4) as usize].min(w);
+            let unit = rng.u128() & if per == 128 { u128::MAX } else { (1u128 << per) - 1 };
+            let mut x = 0u128;
+            let mut at = 0;
+            while at < w {
+                x |= unit << at;
+                at += per;
+            }
+            if rng.chance(1, 3) {
+                x ^= 1u128 << rng.below(w as u64);
+            }
+            x
         }
         _ => rng.u128(),
     };
